@@ -176,6 +176,20 @@ impl<T: CoordNum> Rect<T> {
 //@end
 }
 
+impl<T: CoordNum> Rect<T> {
+//@fn geo-types/src/geometry/rect.rs | impl<T: CoordNum> Rect<T> | to_lines | id=C18.V.rect_to_lines
+//@ret r
+//@spec
+    ensures
+        r@.len() == 4,
+        // the four sides in order, each starting where the previous one ends, starting at (max.x, min.y)
+        r@[0] == (Line { start: Coord { x: rmax(*self).x, y: rmin(*self).y }, end: rmax(*self) }),
+        r@[1] == (Line { start: rmax(*self), end: Coord { x: rmin(*self).x, y: rmax(*self).y } }),
+        r@[2] == (Line { start: Coord { x: rmin(*self).x, y: rmax(*self).y }, end: rmin(*self) }),
+        r@[3] == (Line { start: rmin(*self), end: Coord { x: rmax(*self).x, y: rmin(*self).y } }),
+//@end
+}
+
 // ------------------------------------------------------------------ conversions
 // vstd attaches `obeys_from_spec() ==> r == from_spec(x)` to every `From::from`; we do not use that channel
 // (a Vec cannot be built in spec code) and state the postcondition directly on the impl instead.
@@ -191,7 +205,24 @@ impl<T: CoordNum> From<&Line<T>> for LineString<T> {
 //@end
 }
 
+impl<T: CoordNum> Line<T> {
+//@fn geo-types/src/geometry/line.rs | impl<T: CoordNum> Line<T> | new | id=C18.V.line_new
+//@ret r
+//@spec
+    requires forall|c: C| call_requires(C::into, (c,)),
+    ensures call_ensures(C::into, (start,), r.start), call_ensures(C::into, (end,), r.end),
+//@end
+}
+
 impl<T: CoordNum> Triangle<T> {
+//@fn geo-types/src/geometry/triangle.rs | impl<T: CoordNum> Triangle<T> | to_lines | id=C18.V.tri_to_lines
+//@ret r
+//@spec
+    ensures
+        r@.len() == 3,
+        r@[0] == (Line { start: self.0, end: self.1 }), r@[1] == (Line { start: self.1, end: self.2 }), r@[2] == (Line { start: self.2, end: self.0 }),
+//@end
+
 //@fn geo-types/src/geometry/triangle.rs | impl<T: CoordNum> Triangle<T> | to_array | id=C18.V.tri_to_array
 //@ret r
 //@spec
